@@ -9,4 +9,5 @@ def main : IO UInt32 :=
     | "c13e" => C13.checkEngine params lines
     | "c13e2" => C13.checkEngine2 params lines
     | "c13many" => C13.checkMany params lines
+    | "c13two" => C13.checkTwo params lines
     | _ => { bad := [s!"unknown family {family}"] })
